@@ -212,11 +212,11 @@ theorem pw_mono {ρ : Nat} (hρ : 2 ≤ ρ) {a b : Nat} (h : a ≤ b) : pw ρ a 
   omega
 
 /-- the instantiation `power_value<S, k, ρ>` is well-formed: radix 2 needs `k` below the digits
-of the promoted type (`static_assert`); any other radix multiplies `k` times by `ρ`, which is a
-constant-evaluation overflow if a *signed* promoted type cannot hold `ρ^k` (an unsigned one wraps) -/
+of the promoted type (`static_assert`); any other radix multiplies `k` times by `ρ`, each step under
+the assertion that the product fits the promoted type (signed or unsigned: since the repair of
+`C04.unsigned_power_value_wraps` an unsigned type no longer wraps) -/
 def PowOk (S : IntTy) (k : Nat) (ρ : Nat) : Prop :=
-  k = 0 ∨ (if ρ = 2 then k < (promote S).digits
-           else ((promote S).signed = true → pw ρ k ≤ (promote S).max))
+  k = 0 ∨ (if ρ = 2 then k < (promote S).digits else pw ρ k ≤ (promote S).max)
 
 instance (S : IntTy) (k ρ : Nat) : Decidable (PowOk S k ρ) := by unfold PowOk; exact inferInstance
 
@@ -244,11 +244,10 @@ theorem PowFits.ok {S : IntTy} {k ρ : Nat} (h : PowFits S k ρ) : PowOk S k ρ 
   · rename_i h2; subst h2
     rw [IntTy.max_eq, pw_two] at h
     exact two_pow_lt_iff.1 h.2
-  · intro _; exact h.2
+  · exact h.2
 
-/-- for a signed promoted type (and for radix 2) a well-formed power is representable -/
-theorem PowOk.fits {S : IntTy} {k ρ : Nat} (hρ : 2 ≤ ρ) (h : PowOk S k ρ)
-    (hs : (promote S).signed = true ∨ ρ = 2) : PowFits S k ρ := by
+/-- a well-formed power is representable (every radix, signed and unsigned promoted types) -/
+theorem PowOk.representable {S : IntTy} {k ρ : Nat} (hρ : 2 ≤ ρ) (h : PowOk S k ρ) : PowFits S k ρ := by
   have hz := zero_le_max (promote S)
   have h32 := lo_hi (promote S) (promote_bits_ge32 S)
   unfold PowFits IntTy.InRange
@@ -259,9 +258,16 @@ theorem PowOk.fits {S : IntTy} {k ρ : Nat} (hρ : 2 ≤ ρ) (h : PowOk S k ρ)
   · split at h
     · rename_i h2; subst h2
       rw [IntTy.max_eq, pw_two]; exact two_pow_lt_iff.2 h
-    · rcases hs with hs | hs
-      · exact h hs
-      · contradiction
+    · exact h
+
+/-- the same with the side condition the as-found code needed (an unsigned promoted type used to
+wrap for `ρ ≠ 2`); kept for its callers -/
+theorem PowOk.fits {S : IntTy} {k ρ : Nat} (hρ : 2 ≤ ρ) (h : PowOk S k ρ)
+    (_hs : (promote S).signed = true ∨ ρ = 2) : PowFits S k ρ := h.representable hρ
+
+/-- well-formed = representable -/
+theorem powOk_iff_fits (S : IntTy) (k ρ : Nat) (hρ : 2 ≤ ρ) : PowOk S k ρ ↔ PowFits S k ρ :=
+  ⟨fun h => h.representable hρ, PowFits.ok⟩
 
 /-- one step of the constant evaluation: multiplication of a promoted-type value by the `int` radix -/
 theorem go_step (P : IntTy) (hP : promote P = P) (a : Int) (ρ : Nat) :
@@ -269,21 +275,35 @@ theorem go_step (P : IntTy) (hP : promote P = P) (a : Int) (ρ : Nat) :
   simp only [cBin]
   rw [usualArith_i32, hP]
 
-/-- unsigned promoted type: the repeated multiplication wraps -/
-theorem go_unsigned (P : IntTy) (hP : promote P = P) (hs : P.signed = false) (ρ : Nat) :
-    ∀ (n : Nat) (a : Int), P.InRange a → powerValueInt.go ρ n (P, a) = .ok (P, P.wrap (a * pw ρ n))
-  | 0, a, ha => by
-    have hb : 1 ≤ P.bits := by have := promote_bits_ge32 P; rw [hP] at this; omega
-    simp only [powerValueInt.go, pw_zero, Int.mul_one, IntTy.wrap_id hb ha]
-  | n+1, a, ha => by
-    have hb : 1 ≤ P.bits := by have := promote_bits_ge32 P; rw [hP] at this; omega
-    simp only [powerValueInt.go, go_step P hP, arith_unsigned hs]
-    rw [go_unsigned P hP hs ρ n _ (wrap_inRange P hb _), wrap_mul_wrap, wrap_mul_wrap_left, pw_succ]
-    congr 3
-    rw [Int.mul_assoc, Int.mul_comm (ρ:Int)]
+/-- the asserted condition of one step: `a ≤ max / ρ` says that `a · ρ` fits -/
+theorem le_div_iff_mul_le {a m : Int} {ρ : Nat} (hρ : 2 ≤ ρ) : a ≤ m / (ρ : Int) ↔ a * (ρ : Int) ≤ m :=
+  Int.le_ediv_iff_mul_le (by omega)
 
-/-- signed promoted type: exact while the running product fits … -/
-theorem go_signed_ok (P : IntTy) (hP : promote P = P) (hs : P.signed = true) (ρ : Nat) (hρ : 2 ≤ ρ) :
+/-- the bound of the assertion, `numeric_limits<P>::max() / Radix`, evaluated -/
+theorem bound_eval (P : IntTy) (hP : promote P = P) (ρ : Nat) (hρ : 2 ≤ ρ) (hρm : (ρ:Int) ≤ P.max) :
+    cBin .div (P, P.max) (i32, (ρ:Int)) = .ok (P, P.max / (ρ:Int)) := by
+  have hb : 1 ≤ P.bits := by have := promote_bits_ge32 P; rw [hP] at this; omega
+  have hz := zero_le_max P
+  have hρ' : (2:Int) ≤ (ρ : Int) := by exact_mod_cast hρ
+  have wm : P.wrap P.max = P.max := IntTy.wrap_id hb ⟨by omega, by omega⟩
+  have wρ : P.wrap (ρ:Int) = ρ := IntTy.wrap_id hb ⟨by omega, by omega⟩
+  have hne : (ρ:Int) ≠ 0 := by omega
+  have hov : ¬ (P.signed = true ∧ P.max = P.lowest ∧ (ρ:Int) = -1) := by intro ⟨_, _, h⟩; omega
+  have hq0 : 0 ≤ P.max / (ρ:Int) := Int.ediv_nonneg (by omega) (by omega)
+  have hq1 : P.max / (ρ:Int) ≤ P.max := Int.ediv_le_self _ (by omega)
+  simp only [cBin, usualArith_i32, hP, wm, wρ, hne, hov, ite_false, Int.tdiv_eq_ediv_of_nonneg (show 0 ≤ P.max by omega)]
+  exact arith_ok hb ⟨by omega, by omega⟩
+
+/-- the comparison of the assertion, on values of the promoted type -/
+theorem le_eval (A P : IntTy) (hT : usualArith A P = P) (hb : 1 ≤ P.bits) {a b : Int}
+    (ha : P.InRange a) (hb' : P.InRange b) : cCmp .le (A, a) (P, b) = decide (a ≤ b) := by
+  simp only [cCmp, hT, IntTy.wrap_id hb ha, IntTy.wrap_id hb hb']
+
+theorem usualArith_of_promote_self {P : IntTy} (hP : promote P = P) : usualArith P P = P := by
+  rw [usualArith_self, hP]
+
+/-- exact while the running product fits (signed and unsigned alike) … -/
+theorem go_ok (P : IntTy) (hP : promote P = P) (ρ : Nat) (hρ : 2 ≤ ρ) :
     ∀ (n : Nat) (a : Int), 1 ≤ a → a * pw ρ n ≤ P.max → powerValueInt.go ρ n (P, a) = .ok (P, a * pw ρ n)
   | 0, a, h1, h => by simp only [powerValueInt.go, pw_zero, Int.mul_one]
   | n+1, a, h1, h => by
@@ -305,89 +325,97 @@ theorem go_signed_ok (P : IntTy) (hP : promote P = P) (hs : P.signed = true) (ρ
     have wa : P.wrap a = a := IntTy.wrap_id hb ⟨by omega, by omega⟩
     have wρ : P.wrap (ρ:Int) = ρ := IntTy.wrap_id hb ⟨by omega, by omega⟩
     have hin : P.InRange (a * (ρ:Int)) := ⟨by omega, by omega⟩
-    simp only [powerValueInt.go, go_step P hP, wa, wρ, arith_ok hb hin]
-    rw [go_signed_ok P hP hs ρ hρ n _ haρ h, pw_succ]
+    have hg : a ≤ P.max / (ρ:Int) := (le_div_iff_mul_le hρ).2 (by omega)
+    have hbd := bound_eval P hP ρ hρ (by omega)
+    have hq1 : P.max / (ρ:Int) ≤ P.max := Int.ediv_le_self _ (by omega)
+    have hle := le_eval P P (usualArith_of_promote_self hP) hb (a := a) (b := P.max / (ρ:Int))
+      ⟨by omega, by omega⟩ ⟨by omega, by omega⟩
+    simp only [powerValueInt.go, usualArith_i32, hP, hbd, hle, hg, decide_true, ite_true, go_step P hP, wa, wρ,
+      arith_ok hb hin]
+    rw [go_ok P hP ρ hρ n _ haρ h, pw_succ]
     congr 2
     rw [Int.mul_assoc, Int.mul_comm (ρ:Int)]
 
-/-- … and ill-formed (constant-evaluation overflow) as soon as it does not
-(`ρ` is an `int` template argument) -/
-theorem go_signed_ill (P : IntTy) (hP : promote P = P) (hs : P.signed = true) (ρ : Nat) (hρ : 2 ≤ ρ)
-    (hρi : (ρ:Int) ≤ 2147483647) :
+/-- … and ill-formed (the assertion fails) as soon as it does not -/
+theorem go_ill (P : IntTy) (hP : promote P = P) (ρ : Nat) (hρ : 2 ≤ ρ) (hρi : (ρ:Int) ≤ 2147483647) :
     ∀ (n : Nat) (a : Int), 1 ≤ a → a ≤ P.max → P.max < a * pw ρ n → ∃ m, powerValueInt.go ρ n (P, a) = .ill m
   | 0, a, h1, ha, h => by rw [pw_zero] at h; omega
   | n+1, a, h1, ha, h => by
     have h32 : 32 ≤ P.bits := by have := promote_bits_ge32 P; rw [hP] at this; omega
     have hb : 1 ≤ P.bits := by omega
     have hz := zero_le_max P
-    have hlh := (lo_hi P h32).2
     have hlo : P.lowest ≤ 0 := hz.1
     have hρ' : (2:Int) ≤ (ρ : Int) := by exact_mod_cast hρ
     have haρ : 1 ≤ a * (ρ:Int) := by
       have := Int.mul_le_mul h1 (show (1:Int) ≤ ρ by omega) (by omega) (by omega); omega
-    have wa : P.wrap a = a := IntTy.wrap_id hb ⟨by omega, by omega⟩
-    have wρ : P.wrap (ρ:Int) = ρ := IntTy.wrap_id hb ⟨by omega, by omega⟩
+    have hlh := (lo_hi P h32).2
+    have hbd := bound_eval P hP ρ hρ (by omega)
+    have hq0 : 0 ≤ P.max / (ρ:Int) := Int.ediv_nonneg (by omega) (by omega)
+    have hq1 : P.max / (ρ:Int) ≤ P.max := Int.ediv_le_self _ (by omega)
+    have hle := le_eval P P (usualArith_of_promote_self hP) hb (a := a) (b := P.max / (ρ:Int))
+      ⟨by omega, by omega⟩ ⟨by omega, by omega⟩
     by_cases hfit : a * (ρ:Int) ≤ P.max
-    · have hin : P.InRange (a * (ρ:Int)) := ⟨by omega, by omega⟩
-      simp only [powerValueInt.go, go_step P hP, wa, wρ, arith_ok hb hin]
-      apply go_signed_ill P hP hs ρ hρ hρi n _ haρ hfit
+    · have h3 : (ρ:Int) ≤ a * ρ := by
+        have := Int.mul_le_mul_of_nonneg_right h1 (show 0 ≤ (ρ:Int) by omega); omega
+      have wa : P.wrap a = a := IntTy.wrap_id hb ⟨by omega, by omega⟩
+      have wρ : P.wrap (ρ:Int) = ρ := IntTy.wrap_id hb ⟨by omega, by omega⟩
+      have hin : P.InRange (a * (ρ:Int)) := ⟨by omega, by omega⟩
+      have hg : a ≤ P.max / (ρ:Int) := (le_div_iff_mul_le hρ).2 hfit
+      simp only [powerValueInt.go, usualArith_i32, hP, hbd, hle, hg, decide_true, ite_true, go_step P hP, wa, wρ,
+        arith_ok hb hin]
+      apply go_ill P hP ρ hρ hρi n _ haρ hfit
       rw [pw_succ, ← Int.mul_assoc, Int.mul_right_comm] at h
       exact h
-    · have : ¬ P.InRange (a * (ρ:Int)) := fun hh => hfit hh.2
-      simp only [powerValueInt.go, go_step P hP, wa, wρ, arith_signed hs, this, ite_false]
+    · have hg : ¬ a ≤ P.max / (ρ:Int) := fun hh => hfit ((le_div_iff_mul_le hρ).1 hh)
+      simp only [powerValueInt.go, usualArith_i32, hP, hbd, hle, hg, decide_false, Bool.false_eq_true, ite_false]
       exact ⟨_, rfl⟩
 
-/-- `power_value<S, k, ρ>()`: type and value of a well-formed instantiation.  The value is `ρ^k`
-converted to the promoted type — `ρ^k` itself unless that type is unsigned and too narrow -/
+/-- `power_value<S, k, ρ>()`: type and value of a well-formed instantiation: `ρ^k` in the promoted type
+(written with the conversion into that type, which is the identity on a well-formed power:
+`PowOk.representable`) -/
 theorem powerValueInt_eq (S : IntTy) (k ρ : Nat) (hρ : 2 ≤ ρ) (h : PowOk S k ρ) :
     powerValueInt S k ρ = .ok (if k = 0 then S else promote S, (promote S).wrap (pw ρ k)) := by
   have hP := promote_promote S
   have hb := promote_bits_pos S
+  have hf := h.representable hρ
+  rw [IntTy.wrap_id hb hf]
   unfold powerValueInt
   by_cases hk : k = 0
   · subst hk
-    have h1 : (promote S).InRange 1 := by
-      have := lo_hi (promote S) (promote_bits_ge32 S); have := zero_le_max (promote S)
-      exact ⟨by omega, by omega⟩
-    simp only [ite_true, pw_zero, IntTy.wrap_id hb h1]
+    simp only [ite_true, pw_zero]
   · simp only [hk, ite_false]
     by_cases h2 : ρ = 2
     · subst h2
-      have hf := (PowOk.fits hρ h (Or.inr rfl))
       have hk' : k < (promote S).digits := by
         rcases h with h | h
         · exact absurd h hk
         · simpa using h
-      have hf' : (promote S).InRange (2^k) := hf
-      simp only [ite_true, hk', pw_two, IntTy.wrap_id hb hf']
+      simp only [ite_true, hk', pw_two]
     · simp only [h2, ite_false]
       obtain ⟨n, rfl⟩ : ∃ n, k = n + 1 := ⟨k - 1, by omega⟩
       have hstep : cBin .mul (S, 1) (i32, (ρ:Int)) = arith (promote S) ((promote S).wrap 1 * (promote S).wrap ρ) := by
         simp only [cBin]; rw [usualArith_i32]
-      have h1 : (promote S).InRange 1 := by
-        have := lo_hi (promote S) (promote_bits_ge32 S); have := zero_le_max (promote S)
-        exact ⟨by omega, by omega⟩
+      have hz := zero_le_max (promote S)
+      have hlh := (lo_hi (promote S) (promote_bits_ge32 S)).2
+      have h1 : (promote S).InRange 1 := ⟨by omega, by omega⟩
       have w1 : (promote S).wrap 1 = 1 := IntTy.wrap_id hb h1
-      cases hs : (promote S).signed with
-      | false =>
-        simp only [powerValueInt.go, hstep, w1, Int.one_mul, arith_unsigned hs]
-        rw [go_unsigned _ hP hs ρ n _ (wrap_inRange _ hb _), wrap_mul_wrap_left, pw_succ, Int.mul_comm,
-          wrap_mul_wrap_right]
-      | true =>
-        have hf := (PowOk.fits hρ h (Or.inl hs))
-        rw [IntTy.wrap_id hb hf]
-        have hmax : pw ρ (n+1) ≤ (promote S).max := hf.2
-        have hρ' : (2:Int) ≤ (ρ : Int) := by exact_mod_cast hρ
-        have hpn := pw_ge_one hρ n
-        have hz := zero_le_max (promote S)
-        have hle : (ρ:Int) ≤ pw ρ (n+1) := by
-          rw [pw_succ]
-          have := Int.mul_le_mul_of_nonneg_right hpn (show 0 ≤ (ρ:Int) by omega); omega
-        have hin : (promote S).InRange (ρ:Int) := ⟨by omega, by omega⟩
-        have wρ : (promote S).wrap (ρ:Int) = ρ := IntTy.wrap_id hb hin
-        simp only [powerValueInt.go, hstep, w1, wρ, Int.one_mul, arith_ok hb hin]
-        rw [go_signed_ok _ hP hs ρ hρ n _ (by omega) (by rw [pw_succ, Int.mul_comm] at hmax; exact hmax),
-          pw_succ, Int.mul_comm]
+      have hmax : pw ρ (n+1) ≤ (promote S).max := hf.2
+      have hρ' : (2:Int) ≤ (ρ : Int) := by exact_mod_cast hρ
+      have hpn := pw_ge_one hρ n
+      have hle : (ρ:Int) ≤ pw ρ (n+1) := by
+        rw [pw_succ]
+        have := Int.mul_le_mul_of_nonneg_right hpn (show 0 ≤ (ρ:Int) by omega); omega
+      have hin : (promote S).InRange (ρ:Int) := ⟨by omega, by omega⟩
+      have wρ : (promote S).wrap (ρ:Int) = ρ := IntTy.wrap_id hb hin
+      have hg : (1:Int) ≤ (promote S).max / (ρ:Int) := (le_div_iff_mul_le hρ).2 (by omega)
+      have hbd := bound_eval (promote S) hP ρ hρ (by omega)
+      have hq1 : (promote S).max / (ρ:Int) ≤ (promote S).max := Int.ediv_le_self _ (by omega)
+      have hle := le_eval S (promote S) (usualArith_self_promote S) hb (a := 1) (b := (promote S).max / (ρ:Int))
+        h1 ⟨by omega, by omega⟩
+      simp only [powerValueInt.go, usualArith_i32, hbd, hle, hg, decide_true, ite_true, hstep, w1, wρ, Int.one_mul,
+        arith_ok hb hin]
+      rw [go_ok _ hP ρ hρ n _ (by omega) (by rw [pw_succ, Int.mul_comm] at hmax; exact hmax),
+        pw_succ, Int.mul_comm]
 
 /-- an instantiation that is not well-formed does not compile (`ρ` is an `int` template argument) -/
 theorem powerValueInt_ill (S : IntTy) (k ρ : Nat) (hρ : 2 ≤ ρ) (hρi : (ρ:Int) ≤ 2147483647)
@@ -407,10 +435,7 @@ theorem powerValueInt_ill (S : IntTy) (k ρ : Nat) (hρ : 2 ≤ ρ) (hρi : (ρ:
     exact ⟨_, rfl⟩
   · simp only [h2, ite_false] at h' ⊢
     obtain ⟨n, rfl⟩ : ∃ n, k = n + 1 := ⟨k - 1, by omega⟩
-    have hs : (promote S).signed = true := by
-      apply Decidable.byContradiction; intro hs; exact h' (fun hh => absurd hh hs)
-    have hmax : (promote S).max < pw ρ (n+1) := by
-      apply Decidable.byContradiction; intro hm; exact h' (fun _ => by omega)
+    have hmax : (promote S).max < pw ρ (n+1) := Int.not_le.1 h'
     have hstep : cBin .mul (S, 1) (i32, (ρ:Int)) = arith (promote S) ((promote S).wrap 1 * (promote S).wrap ρ) := by
       simp only [cBin]; rw [usualArith_i32]
     have hlh := (lo_hi (promote S) (promote_bits_ge32 S)).2
@@ -419,9 +444,78 @@ theorem powerValueInt_ill (S : IntTy) (k ρ : Nat) (hρ : 2 ≤ ρ) (hρi : (ρ:
     have w1 : (promote S).wrap 1 = 1 := IntTy.wrap_id hb ⟨by omega, by omega⟩
     have hin : (promote S).InRange (ρ:Int) := ⟨by omega, by omega⟩
     have wρ : (promote S).wrap (ρ:Int) = ρ := IntTy.wrap_id hb hin
-    simp only [powerValueInt.go, hstep, w1, wρ, Int.one_mul, arith_ok hb hin]
-    apply go_signed_ill _ hP hs ρ hρ hρi n _ (by omega) (by omega)
+    have hg : (1:Int) ≤ (promote S).max / (ρ:Int) := (le_div_iff_mul_le hρ).2 (by omega)
+    have hbd := bound_eval (promote S) hP ρ hρ (by omega)
+    have hq1 : (promote S).max / (ρ:Int) ≤ (promote S).max := Int.ediv_le_self _ (by omega)
+    have hle := le_eval S (promote S) (usualArith_self_promote S) hb (a := 1) (b := (promote S).max / (ρ:Int))
+      ⟨by omega, by omega⟩ ⟨by omega, by omega⟩
+    simp only [powerValueInt.go, usualArith_i32, hbd, hle, hg, decide_true, ite_true, hstep, w1, wρ, Int.one_mul,
+      arith_ok hb hin]
+    apply go_ill _ hP ρ hρ hρi n _ (by omega) (by omega)
     rw [pw_succ, Int.mul_comm] at hmax; exact hmax
+
+/-- the as-found repeated multiplication: exact while the running product fits -/
+theorem goOrig_ok (P : IntTy) (hP : promote P = P) (ρ : Nat) (hρ : 2 ≤ ρ) :
+    ∀ (n : Nat) (a : Int), 1 ≤ a → a * pw ρ n ≤ P.max → powerValueIntOrig.go ρ n (P, a) = .ok (P, a * pw ρ n)
+  | 0, a, h1, h => by simp only [powerValueIntOrig.go, pw_zero, Int.mul_one]
+  | n+1, a, h1, h => by
+    have hb : 1 ≤ P.bits := by have := promote_bits_ge32 P; rw [hP] at this; omega
+    have hz := zero_le_max P
+    have hlo : P.lowest ≤ 0 := hz.1
+    have hpn := pw_ge_one hρ n
+    rw [pw_succ, ← Int.mul_assoc, Int.mul_right_comm] at h
+    have hρ' : (2:Int) ≤ (ρ : Int) := by exact_mod_cast hρ
+    have haρ : 1 ≤ a * (ρ:Int) := by
+      have := Int.mul_le_mul h1 (show (1:Int) ≤ ρ by omega) (by omega) (by omega); omega
+    have h2 : a * (ρ:Int) ≤ a * ρ * pw ρ n := by
+      have := Int.mul_le_mul_of_nonneg_left hpn (show 0 ≤ a * (ρ:Int) by omega); omega
+    have h3 : (ρ:Int) ≤ a * ρ := by
+      have := Int.mul_le_mul_of_nonneg_right h1 (show 0 ≤ (ρ:Int) by omega); omega
+    have h4 : a ≤ a * ρ := by
+      have := Int.mul_le_mul_of_nonneg_left (show (1:Int) ≤ ρ by omega) (show 0 ≤ a by omega); omega
+    have wa : P.wrap a = a := IntTy.wrap_id hb ⟨by omega, by omega⟩
+    have wρ : P.wrap (ρ:Int) = ρ := IntTy.wrap_id hb ⟨by omega, by omega⟩
+    have hin : P.InRange (a * (ρ:Int)) := ⟨by omega, by omega⟩
+    simp only [powerValueIntOrig.go, go_step P hP, wa, wρ, arith_ok hb hin]
+    rw [goOrig_ok P hP ρ hρ n _ haρ h, pw_succ]
+    congr 2
+    rw [Int.mul_assoc, Int.mul_comm (ρ:Int)]
+
+/-- the repair changed nothing where the power is representable -/
+theorem powerValueIntOrig_eq (S : IntTy) (k ρ : Nat) (hρ : 2 ≤ ρ) (hf : PowFits S k ρ) :
+    powerValueIntOrig S k ρ = powerValueInt S k ρ := by
+  have hP := promote_promote S
+  have hb := promote_bits_pos S
+  rw [powerValueInt_eq S k ρ hρ hf.ok, IntTy.wrap_id hb hf]
+  unfold powerValueIntOrig
+  by_cases hk : k = 0
+  · subst hk; simp only [ite_true, pw_zero]
+  · simp only [hk, ite_false]
+    by_cases h2 : ρ = 2
+    · subst h2
+      have hk' : k < (promote S).digits := by
+        rcases hf.ok with h | h
+        · exact absurd h hk
+        · simpa using h
+      simp only [ite_true, hk', pw_two]
+    · simp only [h2, ite_false]
+      obtain ⟨n, rfl⟩ : ∃ n, k = n + 1 := ⟨k - 1, by omega⟩
+      have hstep : cBin .mul (S, 1) (i32, (ρ:Int)) = arith (promote S) ((promote S).wrap 1 * (promote S).wrap ρ) := by
+        simp only [cBin]; rw [usualArith_i32]
+      have hz := zero_le_max (promote S)
+      have hlh := (lo_hi (promote S) (promote_bits_ge32 S)).2
+      have w1 : (promote S).wrap 1 = 1 := IntTy.wrap_id hb ⟨by omega, by omega⟩
+      have hmax : pw ρ (n+1) ≤ (promote S).max := hf.2
+      have hρ' : (2:Int) ≤ (ρ : Int) := by exact_mod_cast hρ
+      have hpn := pw_ge_one hρ n
+      have hle : (ρ:Int) ≤ pw ρ (n+1) := by
+        rw [pw_succ]
+        have := Int.mul_le_mul_of_nonneg_right hpn (show 0 ≤ (ρ:Int) by omega); omega
+      have hin : (promote S).InRange (ρ:Int) := ⟨by omega, by omega⟩
+      have wρ : (promote S).wrap (ρ:Int) = ρ := IntTy.wrap_id hb hin
+      simp only [powerValueIntOrig.go, hstep, w1, wρ, Int.one_mul, arith_ok hb hin]
+      rw [goOrig_ok _ hP ρ hρ n _ (by omega) (by rw [pw_succ, Int.mul_comm] at hmax; exact hmax),
+        pw_succ, Int.mul_comm]
 
 /-- `power_value` compiles exactly when `PowOk` holds -/
 theorem powerValueInt_ok_iff (S : IntTy) (k ρ : Nat) (hρ : 2 ≤ ρ) (hρi : (ρ:Int) ≤ 2147483647) :
@@ -432,6 +526,15 @@ theorem powerValueInt_ok_iff (S : IntTy) (k ρ : Nat) (hρ : 2 ≤ ρ) (hρi : (
     obtain ⟨m, hm⟩ := powerValueInt_ill S k ρ hρ hρi h
     rw [hm] at hv; cases hv
   · intro h; exact ⟨_, powerValueInt_eq S k ρ hρ h⟩
+
+/-- a well-formed power is positive: the assertion `0 < divisor` of `default_scale<-k>` cannot fail for
+a built-in representation -/
+theorem powerValueInt_pos (S : IntTy) (k ρ : Nat) (hρ : 2 ≤ ρ) (hρi : (ρ:Int) ≤ 2147483647) (p : TV)
+    (h : powerValueInt S k ρ = .ok p) : 0 < p.2 := by
+  have hok := (powerValueInt_ok_iff S k ρ hρ hρi).1 ⟨p, h⟩
+  rw [powerValueInt_eq S k ρ hρ hok, IntTy.wrap_id (promote_bits_pos S) (hok.representable hρ)] at h
+  cases h
+  exact pw_pos hρ k
 
 /-! ## `scale<k, ρ>` -/
 
@@ -491,7 +594,12 @@ theorem scaleInt_down (S : IntTy) (hS : 1 ≤ S.bits) (k : Int) (hk : k < 0) (ρ
   have hn : (-k).toNat ≠ 0 := by omega
   have hpos := pw_pos hρ (-k).toNat
   unfold scaleInt
-  simp only [ge_iff_le, hk', ite_false, powerValueInt_eq S _ ρ hρ hw.ok, Res.bind_ok, hn]
+  have hgt : cCmp .gt (promote S, pw ρ (-k).toNat) (i32, 0) = true := by
+    have h0 : (promote S).InRange 0 := zero_le_max (promote S)
+    simp only [cCmp, usualArith_i32, promote_promote, IntTy.wrap_id hb hw, IntTy.wrap_id hb h0]
+    exact decide_eq_true hpos
+  simp only [ge_iff_le, hk', ite_false, powerValueInt_eq S _ ρ hρ hw.ok, Res.bind_ok, hn,
+    IntTy.wrap_id hb hw, hgt, ite_true]
   have hne : pw ρ (-k).toNat ≠ 0 := by omega
   have hov : ¬ ((promote S).signed = true ∧ v = (promote S).lowest ∧ pw ρ (-k).toNat = -1) := by
     intro ⟨_, _, h⟩; omega
